@@ -92,6 +92,7 @@ struct Params
     std::string mode = "hist";  // hist | pair | elem | c10 | c18 | proxy
     std::set<std::string> active;
     int nmax = 3, cmax = 2, bmax = 4, depth = 6;
+    int cscale = 1;  // objects per count index
     int arena1 = 0;  // arena of slot 1 / of elements constructed "with another allocator"
     std::vector<int> fixed_choices{0, 1, 3};
     bool on(const char* p) const { return active.count(p) != 0; }
@@ -342,10 +343,13 @@ struct Engine
         }
     }
 
+    // the operation text carries count INDICES; the number of objects is index x cscale (runs with cscale 4 reach
+    // spans of 16..48 bytes, i.e. the block sizes a copy/move/swap loop may special-case)
+    std::size_t unit() const { return LS::UNIT * static_cast<std::size_t>(prm.cscale); }
     std::vector<std::size_t> counts_of(const Op& o) const
     {
         std::vector<std::size_t> c(LS::NV);
-        for (std::size_t i = 0; i < LS::NV; ++i) c[i] = static_cast<std::size_t>(o.a[1 + i]);
+        for (std::size_t i = 0; i < LS::NV; ++i) c[i] = static_cast<std::size_t>(o.a[1 + i]) * static_cast<std::size_t>(prm.cscale);
         return c;
     }
     static bool same_shape(const Elem& a, const Elem& b)
@@ -439,7 +443,7 @@ struct Engine
             {
                 std::vector<std::size_t> fixed(LS::NF);
                 for (std::size_t i = 0; i < LS::NF; ++i) fixed[i] = static_cast<std::size_t>(o.a[3 + i]);
-                const std::size_t bbytes = static_cast<std::size_t>(o.a[2]) * LS::UNIT;
+                const std::size_t bbytes = static_cast<std::size_t>(o.a[2]) * unit();
                 construct_vec(t, static_cast<std::size_t>(o.a[1]), bbytes, fixed, o.a[5]);
                 m[t] = VM{};
                 m[t].present = true;
@@ -513,7 +517,7 @@ struct Engine
             {
                 pre_empty = m[t].el.empty();
                 const std::size_t n = static_cast<std::size_t>(o.a[1]);
-                const std::size_t bbytes = static_cast<std::size_t>(o.a[2]) * LS::UNIT;
+                const std::size_t bbytes = static_cast<std::size_t>(o.a[2]) * unit();
                 if constexpr (LS::NV > 0)
                     LIB(v[t]->reserve(n, bbytes));
                 else
@@ -1945,7 +1949,7 @@ struct Engine
                 with_copies("copy.reserve", [&](Vec& c)
                             {
                                 if constexpr (LS::NV > 0)
-                                    c.reserve(m[0].cap + 1, m[0].budget + LS::UNIT);
+                                    c.reserve(m[0].cap + 1, m[0].budget + unit());
                                 else
                                     c.reserve(m[0].cap + 1);
                                 return 0L;
@@ -2082,7 +2086,9 @@ struct Engine
             std::vector<std::size_t> c(LS::NV, 0);
             for (;;)
             {
-                if (LS::payload_bytes(c) <= remaining)
+                std::vector<std::size_t> scaled = c;
+                for (auto& x : scaled) x *= static_cast<std::size_t>(prm.cscale);
+                if (LS::payload_bytes(scaled) <= remaining)
                 {
                     Op o = mk(O_EB, t);
                     for (std::size_t i = 0; i < LS::NV; ++i) o.a[1 + i] = static_cast<int8_t>(c[i]);
@@ -2124,8 +2130,8 @@ struct Engine
         const VM& mm = m[t];
         if (!mm.present || mm.moved) return;
         const int cap = static_cast<int>(mm.cap);
-        const int bu = static_cast<int>(mm.budget / LS::UNIT);
-        const int used_u = static_cast<int>((mm.used() + LS::UNIT - 1) / LS::UNIT);
+        const int bu = static_cast<int>(mm.budget / unit());
+        const int used_u = static_cast<int>((mm.used() + unit() - 1) / unit());
         const int blim = prm.bmax + 2;
         std::set<std::pair<int, int>> seen;
         auto add = [&](int n, int b)
